@@ -226,6 +226,11 @@ def instances(tier):
     for degs, ms, ss, rng in [((2,), ((1, 1),), 5, (F(9, 10), F(1, 10))), ((3,), ((1,),), 4, (F(1), F(0))), ((2,), ((2,),), 4, (F(1, 5), F(4, 5))),
                               ((1, 2), ((1,), (1,)), 3, (F(0), F(1), F(1), F(0))), ((2, 1), ((), (1, 1)), 3, (F(3, 4), F(1, 4), F(9, 10), F(1, 10)))]:
         out.append(inst('sampled segment %s inside bbox p%s m%s ss%d' % (tuple(str(x) for x in rng), degs, ms, ss), h_grid_bbox, timeout=900, degs=degs, ms=ms, ss=ss, rng=rng))
+    # knot vectors times one symbolic factor (a last knot interval of any width)
+    for sp in (spec('curve', (2,), ((1, 1),), rational=False, dim=2, kscaled=True), spec('curve', (3,), ((1,),), rational=True, dim=2, kscaled=True),
+               spec('surface', (1, 2), ((1,), (1,)), rational=False, kscaled=True)):
+        out.append(inst('%s hull' % spec_name(sp), h_hull, timeout=1800, sp=sp))
+        out.append(inst('%s ends' % spec_name(sp), h_ends, timeout=900, sp=sp))
     for p in (1, 2, 3):
         sp = spec('curve', (p,), ((1,),), rational=(p != 2), lo=2, hi=5)
         out.append(inst('%s ends' % spec_name(sp), h_ends, sp=sp))
